@@ -1,2 +1,58 @@
-(* placeholder until CLRefine.v lands *)
-From EV Require Import CLModel CLSpec.
+(* Properties_C01.v — C01: CallbackList invokes exactly the current callbacks, once each,
+   in list order; remove/empty/forEach/forEachIf/ownsHandle/hasListener/removeListener
+   describe that same content.
+
+   This file contains only the property theorems (closed by `exact`), their
+   non-vacuity examples and Print Assumptions.  The proofs are in CLHeap / CLOps /
+   CLRefine / CLSim / CLMain. *)
+From Coq Require Import List Arith NArith ZArith Bool.
+From EV Require Import CLModel CLSpec CLHeap CLRefine CLSim CLMain.
+From EV.gen Require GenCL.
+Import ListNotations.
+
+Definition flat : nat -> nat -> list cmd := fun _ _ => [].
+
+Lemma flat_core : core_behav flat.
+Proof. intros c n. constructor. Qed.
+
+(* Every finite history of list operations (any number of lists, callbacks and handles —
+   live, stale, empty, repeated), interleaved with invocations and enumerations, for all
+   argument values: if the pointer-level model terminates without taking the counter-wrap
+   branch, the list specification produces exactly the same observable trace (every
+   boolean result, every call with its argument, every enumeration) and the final linked
+   chains denote the specification's final lists.  W is the counter modulus (2^32 in the
+   real code); the theorem holds for every W > 0. *)
+Theorem C01_flat_histories_refine_list_spec :
+  forall W fuel nl prog st',
+    (0 < W)%N -> core_prog prog ->
+    run W GenCL.remove_checks_removed GenCL.insert_checks_removed GenCL.owns_checks_removed flat fuel (init nl) prog = Some st' ->
+    wrapped st' = false ->
+    exists sst', s_run flat fuel (s_init nl) prog = Some sst' /\ strace sst' = trace st' /\ R W st' sst'.
+Proof. intros W fuel nl prog st' HW Hp. exact (cl_run_refines W flat fuel nl prog st' HW flat_core Hp). Qed.
+Print Assumptions C01_flat_histories_refine_list_spec.
+
+(* The abstraction relation pins down the content: the nodes linked from head, in order,
+   are exactly the specification's entries, with their callbacks. *)
+Theorem C01_final_chain_is_spec_list :
+  forall W st sst l o,
+    R W st sst -> get_list st l = Some o ->
+    exists gr sgr, get_group st (lg o) = Some gr /\ s_get_group sst (lg o) = Some sgr /\
+                   GInv gr (map fst (ents sgr)) /\
+                   (forall e c, In (e, c) (ents sgr) -> exists nd, nth_error (heap gr) e = Some nd /\ cb nd = c).
+Proof. exact R_content. Qed.
+Print Assumptions C01_final_chain_is_spec_list.
+
+(* non-vacuity: a 14-operation history with a stale handle (h2 after its removal), an empty
+   handle (h9), insert before head, before a removed callback, and all enumerations *)
+Definition ex_prog : list cmd :=
+  [Append 0 1 1; Append 0 2 2; Prepend 0 3 3; Insert 0 4 3 4; Remove 0 2; Remove 0 2; Insert 0 5 2 5;
+   Insert 0 6 9 6; Owns 0 2; Owns 0 5; Invoke 0 7%Z; ForEach 0; ForEachIf 0 2; HasL 0 5; RemoveL 0 4; HasAny 0; Empty 0;
+   Invoke 0 8%Z].
+
+Example C01_hypotheses_satisfiable :
+  core_prog ex_prog /\
+  exists st', run (2 ^ 32)%N GenCL.remove_checks_removed GenCL.insert_checks_removed GenCL.owns_checks_removed flat 5 (init 1) ex_prog = Some st'
+              /\ wrapped st' = false /\ length (trace st') = 25.
+Proof.
+  split; [repeat constructor|]. eexists. split; [vm_compute; reflexivity|]. split; reflexivity.
+Qed.
